@@ -66,9 +66,9 @@ def G(e):
             if ln in ("many1", "many0", "all_consuming", "cut", "opt", "complete", "peek", "recognize"):
                 return (ln, G(a[0]))
             if ln == "value":
-                return ("value", G(a[1]))
+                return ("value", G(a[1]), a[0])       # nom::combinator::value(val, parser): the parser's result is replaced by val
             if ln == "map":
-                return ("map", G(a[0]))
+                return ("map", G(a[0]), a[1])         # nom::combinator::map(parser, f): f applied to the parser's result (the rest of the input is kept by nom)
             return ("nom?", ln)
         if ln == "map" and "Result" in e[1]:
             return ("rmap", G(a[0]), a[1])
@@ -141,8 +141,9 @@ def grammar_rules(ctx, lib):
         g = None
         if ok:
             g = G(flow.closure_ret(lib, cl[0]))
-            ok = g == ("value", ("all_consuming", ("many1", ("alt", (("ref", "parse_statement"), ("ref", "parse_ac"))))))
-            if not ok and g == ("value", ("all_consuming", ("many1", ("alt", (("ref", "parse_ac"), ("ref", "parse_statement")))))):
+            g2 = g[:2] if g and g[0] == "value" else g     # (the value itself - () - is not part of the grammar)
+            ok = g2 == ("value", ("all_consuming", ("many1", ("alt", (("ref", "parse_statement"), ("ref", "parse_ac"))))))
+            if not ok and g2 == ("value", ("all_consuming", ("many1", ("alt", (("ref", "parse_ac"), ("ref", "parse_statement")))))):
                 ok = True
             # applied to the closure's own input
             cr = flow.closure_ret(lib, cl[0])
@@ -180,9 +181,16 @@ def grammar_rules(ctx, lib):
             ctx.ob(rb, name, linear(g) == want and applied_to_input(e), where=b.where(), expected=lin_str(want), found=lin_str(linear(g)))
     if "unary_op" in grams:
         b, g, e = grams["unary_op"]
-        ok = g[0] == "rmap" and linear(g[1]) == [(False, ("tag", "neg")), (False, ("tag", "(")), (True, ("ref", "formula")), (False, ("tag", ")"))]
-        ctx.ob(rb, "unary_op", ok, where=b.where(), expected="~'neg' ~'(' <formula> ~')'", found=lin_str(linear(g[1])) if g[0] == "rmap" else str(g)[:200])
-        if ok:
+        ok = g[0] in ("rmap", "map") and linear(g[1]) == [(False, ("tag", "neg")), (False, ("tag", "(")), (True, ("ref", "formula")), (False, ("tag", ")"))]
+        ctx.ob(rb, "unary_op", ok and (g[0] == "rmap" or applied_to_input(e)), where=b.where(), expected="~'neg' ~'(' <formula> ~')'", found=lin_str(linear(g[1])) if g[0] in ("rmap", "map") else str(g)[:200])
+        if ok and g[0] == "map":
+            # nom's map: the closure receives the parsed sub-formula only
+            okn = False
+            if g[2][0] == "closure":
+                cr = flow.closure_ret(lib, lib.body(g[2][1]))
+                okn = match(cr, ADT("Not", _0=C("Box::new", P(2)))) is not None
+            ctx.ob(ro, "neg->Not", okn, where=b.where(), expected="map(.., |f| Formula::Not(Box::new(f)))", found=flow.show(g[2])[:160])
+        elif ok:
             cr = flow.closure_ret(lib, lib.body(g[2][1]))
             ctx.ob(ro, "neg->Not", match(cr, TUP(F(P(2), "0"), ADT("Not", _0=C("Box::new", F(P(2), "1"))))) is not None, where=b.where(), expected="(rest, Formula::Not(Box::new(result)))", found=flow.show(cr)[:160])
     for kw, variant in KEYWORDS.items():
@@ -212,6 +220,18 @@ def grammar_rules(ctx, lib):
             ctx.cannot(ro, "%s->%s" % (kw, variant), "Result::map(.., closure building the variant)", b.where(), str(g)[:160])
     if "constant" in grams:
         b, g, e = grams["constant"]
+        if g[0] == "alt" and len(g[1]) == 2 and all(x[0] == "value" for x in g[1]):
+            # alt((value(Formula::Top, c(v)), value(Formula::Bot, c(f)))): every alternative yields its own constant
+            got = {}
+            for x in g[1]:
+                lin = linear(x[1])
+                shape = len(lin) == 4 and lin[0] == (False, ("tag", "c")) and lin[1] == (False, ("tag", "(")) and lin[3] == (False, ("tag", ")")) and lin[2][1][0] == "tag"
+                val = x[2]
+                vn = val[2] if val[0] == "adt" and "Formula" in val[1] else flow.show(val)[:40]
+                got[lin[2][1][1] if shape else "?"] = vn
+            ctx.ob(rb, "constant", set(got) == {"v", "f"} and applied_to_input(e), where=b.where(), expected="~'c' ~'(' 'v' ~')' | ~'c' ~'(' 'f' ~')'", found=str(got))
+            ctx.ob(ro, "c(v)->Top,c(f)->Bot", got == {"v": "Top", "f": "Bot"}, where=b.where(), expected="'v' -> Formula::Top, 'f' -> Formula::Bot", found=str(got))
+            g = ("handled",)
         ok = g[0] == "rmap" and g[1][0] == "alt" and len(g[1][1]) == 2
         alts = []
         if ok:
@@ -219,7 +239,8 @@ def grammar_rules(ctx, lib):
             want_v = [(False, ("tag", "c")), (False, ("tag", "(")), (True, ("tag", "v")), (False, ("tag", ")"))]
             want_f = [(False, ("tag", "c")), (False, ("tag", "(")), (True, ("tag", "f")), (False, ("tag", ")"))]
             ok = sorted(alts, key=str) == sorted([want_v, want_f], key=str)
-        ctx.ob(rb, "constant", ok, where=b.where(), expected="~'c' ~'(' 'v' ~')' | ~'c' ~'(' 'f' ~')'", found=[lin_str(a) for a in alts] or str(g)[:200])
+        if g[0] != "handled":
+            ctx.ob(rb, "constant", ok, where=b.where(), expected="~'c' ~'(' 'v' ~')' | ~'c' ~'(' 'f' ~')'", found=[lin_str(a) for a in alts] or str(g)[:200])
         if g[0] == "rmap" and g[2][0] == "closure":
             cb = lib.body(g[2][1])
             eng = ctx.engine([lib])
@@ -264,11 +285,20 @@ def grammar_rules(ctx, lib):
         ctx.ob(rb, "atomic", ok and applied_to_input(e), where=b.where(), expected="~'\"' until('\"') ~'\"' | alnum", found=[lin_str(a) for a in alts] or str(g)[:200])
     if "atomic_term" in grams:
         b, g, e = grams["atomic_term"]
+        if g[0] == "map" and g[1] == ("ref", "atomic"):
+            # map(atomic, Formula::Atom): the variant constructor applied to the label
+            f_ = g[2]
+            okm = (f_[0] == "fnitem" and flow.sg(f_[1]).endswith("parser::Formula::Atom")) and applied_to_input(e)
+            if f_[0] == "closure":
+                okm = match(flow.closure_ret(lib, lib.body(f_[1])), ADT("Atom", _0=P(2))) is not None and applied_to_input(e)
+            ctx.ob(ro, "atomic_term->Atom", okm, where=b.where(), expected="map(atomic, Formula::Atom)(input)", found=str(g)[:200])
+            g = ("handled",)
         ok = g[0] == "rmap" and g[1] == ("ref", "atomic")
         if ok:
             cr = flow.closure_ret(lib, lib.body(g[2][1]))
             ok = match(cr, TUP(F(P(2), "0"), ADT("Atom", _0=F(P(2), "1")))) is not None
-        ctx.ob(ro, "atomic_term->Atom", ok, where=b.where(), expected="atomic(input).map(|(rest, label)| (rest, Formula::Atom(label)))", found=str(g)[:200])
+        if g[0] != "handled":
+            ctx.ob(ro, "atomic_term->Atom", ok, where=b.where(), expected="atomic(input).map(|(rest, label)| (rest, Formula::Atom(label)))", found=str(g)[:200])
     # ---- alternatives
     if "formula" in grams:
         b, g, e = grams["formula"]
